@@ -32,6 +32,8 @@ package eval
 //@   callsite[C27] SetClassMethodT a_frame == nextFrame && a_class == class
 //@   callsite[C27] SetDefinedClass a_frame == nextFrame && a_class == class
 //@   callsite[C27] GetClassMethodT a_frame == nextFrame && a_targetClass == class
+//@   # the superclass written as F::N::C lives in frame CalculateFrame(F, N): outer part first
+//@   callsite[C27] CalculateFrame a_frame == parentFrame && a_class == parentNamespace
 
 //@ # ---- C02 layer 3 (eos-exit): evaluator loops that read tokens must leave at end of stream ----
 //@ func (*ti/eval.Case).Evaluation
